@@ -13,7 +13,9 @@ PROPERTY = 'C04'
 RULE = (
     'per module with format(): x = corpus valid numbers in every accepted presentation (as written, compact, '
     'case variants, surrounding whitespace, prefixes, ASCII separators/whitespace at every position, every '
-    'stdnum.util._char_map key inserted/substituted; only presentations that validate() accepts are used) x '
+    'stdnum.util._char_map key inserted/substituted; plus single edits of valid numbers - common.mutations and every '
+    'digit/A/X inserted, substituted or a character deleted at every position - that validate() happens to '
+    'accept; only presentations that validate() accepts are used) x '
     'format keyword options found by inspect.signature (booleans True/False, meid format None/hex/dec, de.stnr '
     'regions, caller-supplied separator: only separators that the module\'s own compact() removes at every inner '
     'position of valid numbers - discovered empirically from common.SEPARATORS, "", and two look-alikes).  '
@@ -25,8 +27,8 @@ RULE = (
     'options].  ' + G.NONTRIVIAL_RULE)
 
 PARAMS = {
-    'quick': dict(full=0, dense=3, light=40),
-    'thorough': dict(full=4, dense=24, light=400),
+    'quick': dict(full=0, dense=3, light=40, near=3, mutations=3),
+    'thorough': dict(full=4, dense=24, light=400, near=16, mutations=12),
 }
 EXPECT = ('format(x) does not raise; N(validate(format(x))) == N(validate(x)); format(x) == format(validate(x))')
 
@@ -188,7 +190,7 @@ def _worker(task):
     modname, part, nparts, seed, tier = task
     mod = common.module(modname)
     sc = G.budget_scale(mod)
-    P = G.scaled_params(PARAMS[tier], sc)
+    P = G.scaled_params(PARAMS[tier], sc, tier)
     rng = G.task_rng(seed, PROPERTY, modname, part)
     fnd, st = G.Findings(), G.Stats()
     valid = G.part_slice(G.diverse(common.valid_numbers(modname), 10 ** 6), part, nparts)
@@ -204,7 +206,7 @@ def _worker(task):
         base, viol = r
         st.record(gen, (x, G.kw_key(fkw)), 'ok')
         for site, observed, relation in viol:
-            fnd.add(modname, 'format', site, len(x) + len(fkw), repr((x, G.kw_key(fkw)))[:300],
+            fnd.add(modname, 'format', site, G.wsize(fkw, x), repr((x, G.kw_key(fkw)))[:300],
                     lambda: G.make_case(modname, 'format', [x], fkw, observed, EXPECT, site, relation,
                                         generator=gen))
         if len(samples) < 10 and not any(s['gen'] == gen for s in samples):
@@ -239,6 +241,21 @@ def _worker(task):
                 for fkw in fopts[1:]:
                     for lab, y in sub:
                         check('option:' + ','.join(sorted(fkw)), y, fkw)
+    # other valid numbers than the corpus ones: single edits of valid numbers that validate() happens to accept
+    for idx, v in enumerate(valid):
+        gidx = idx * nparts + part
+        if gidx >= P['full'] + P['dense'] + P['light']:
+            break
+        for y in common.mutations(rng, v, P['mutations']):
+            check('mutation', y, {})
+        if gidx < P['near']:
+            for i in range(len(v) + 1):
+                for ch in '0123456789AX':
+                    check('near-valid', v[:i] + ch + v[i:], {})
+                    if i < len(v) and ch != v[i]:
+                        check('near-valid', v[:i] + ch + v[i + 1:], {})
+                if i < len(v):
+                    check('near-valid', v[:i] + v[i + 1:], {})
     return {'module': modname, 'task': (modname, part), 'stats': st.summary(), 'findings': fnd.export(),
             'samples': samples}
 
